@@ -488,22 +488,26 @@ ASMJIT_FAVOR_SIZE Error init_func_detail(FuncDetail& func, const FuncSignature& 
 
             // Passed via stack if the argument is float/double or indirectly. The trap is - if the argument is
             // passed indirectly, the address can be passed via register, if the argument's index has GP one.
+            // Stack slots are always 8 bytes (float/double/pointer) and are only consumed by arguments passed by stack.
             if (TypeUtils::is_float(type_id)) {
               arg.assign_stack_offset(int32_t(stack_offset));
+              stack_offset += 8;
             }
             else {
-              uint32_t gp_reg_id = cc._passed_order[RegGroup::kGp].id[arg_index];
+              uint32_t gp_reg_id = Reg::kIdBad;
+              if (arg_index < CallConv::kMaxRegArgsPerGroup) {
+                gp_reg_id = cc._passed_order[RegGroup::kGp].id[arg_index];
+              }
+
               if (gp_reg_id != Reg::kIdBad) {
                 arg.assign_reg_data(RegType::kGp64, gp_reg_id);
               }
               else {
                 arg.assign_stack_offset(int32_t(stack_offset));
+                stack_offset += 8;
               }
               arg.add_flags(FuncValue::kFlagIsIndirect);
             }
-
-            // Always 8 bytes (float/double/pointer).
-            stack_offset += 8;
             continue;
           }
         }
